@@ -45,7 +45,9 @@ def tree(root):
 
 def gen(root, pkg, style, layout, home, extra_files=None):
     shutil.rmtree(root, ignore_errors=True)
-    files = C04.files_for(pkg, style, layout)
+    # HDF5 sources are generated too (never compiled here: the byte comparison of the trees is the oracle)
+    outs = emit.default_outputs("../out", matlab=True, cpp_opts={"generateHDF5": True, "generateCMakeLists": False})
+    files = emit.package_files(pkg, style, outs, layout)
     if extra_files:
         files.update(extra_files)
     common.write_tree(root, files)
@@ -59,7 +61,7 @@ def run(ctx):
     quick = ctx.tier == "quick"
     home = os.path.join(ctx.workdir, "home")
     os.makedirs(home, exist_ok=True)
-    ctx.rule = ("seeded ASTs (ser-corpus with imports + evolution bases) x 10 pure-syntax spellings (byte-identical generated trees demanded) + 3 layout variants "
+    ctx.rule = ("seeded ASTs (ser-corpus with imports + evolution bases) x 10 pure-syntax spellings (byte-identical generated trees demanded) + 4 layout variants "
                 "(identical schema literals, identical bytes written by the generated Python code for the same reference streams); the same with one rule violation "
                 "injected (accept/reject must agree). distinct = (AST, variant).")
     ctx.assumptions = ["the reference spelling is the harness's default short spelling", "documentation comments are held fixed (they are part of the generated code)"]
@@ -78,6 +80,11 @@ def run(ctx):
     oi = Opt(P("int32"))
     zoo = Rec("Zoo", [("vv", V(V(oi))), ("av", A(V(oi), None)), ("va", V(A(oi, None))), ("vfv", V(V(oi, 3))), ("mv", M(P("string"), V(oi))), ("ov", Opt(V(oi))), ("vov", V(Opt(V(P("int32"))))),
                       ("mm", M(P("string"), M(P("int32"), oi))), ("vu", V(U(((None, P("int32")), (None, P("string")))))), ("ovu", Opt(V(U(((None, P("int32")), (None, P("string")))))))])
+    # fixed-size containers of optionals / unions as the only "non-flat" members of plain records
+    ui = U(((None, P("int32")), (None, P("float32"))))
+    fixed = [Rec("FixedOpt", [("a", V(oi, 3)), ("b", P("int32"))]), Rec("FixedOptArr", [("a", A(oi, ((None, 2), (None, 2)))), ("b", P("float64"))]),
+             Rec("FixedUnion", [("a", V(ui, 2)), ("b", P("uint8"))])]
+    asts.append(("fixedzoo", Pkg("FixedZoo", fixed + [Proto("FixedP", [("x", N("FixedOpt")), ("y", N("FixedOptArr")), ("z", S(N("FixedUnion")))])])))
     asts.append(("nestingzoo", Pkg("ZooPkg", [zoo, Proto("ZooP", [("z", N("Zoo")), ("s", S(V(V(oi)))), ("o", Opt(V(oi))), ("m", M(P("string"), V(oi)))])])))
 
     def one(item):
@@ -122,9 +129,15 @@ def run(ctx):
         cut = max(1, len(nn) // 2)
         variants.append(("split-2-files", copy.deepcopy(pkg), [("b.yml", nn[:cut]), ("a.yml", nn[cut:])]))
         variants.append(("split-subdirs", copy.deepcopy(pkg), [("x/y/z.yaml", nn[:1]), ("x/q.yml", nn[1:cut + 1]), ("0.yml", nn[cut + 1:])]))
+        variants.append(("multi-document", copy.deepcopy(pkg), [("b.yml", nn[:1]), ("a.yml", nn[1:cut + 1]), ("c.yml", nn[cut + 1:])]))
         for name, p2, layout in variants:
             root = os.path.join(base, "lay_" + name)
-            s2, pr = C04.schemas_of(root, p2, C04.files_for(p2, None, layout), home)
+            lf = C04.files_for(p2, None, layout)
+            if name == "multi-document":
+                # the three model files become three YAML documents of one file
+                parts = [lf.pop(p2.dir + "/" + fn) for fn, _ in layout]
+                lf[p2.dir + "/all.yml"] = "\n---\n".join(t for t in parts if t.strip())
+            s2, pr = C04.schemas_of(root, p2, lf, home)
             ctx.ev()
             ctx.case((key, name))
             ctx.count("layout." + name)
